@@ -12,7 +12,7 @@ from . import srf as base
 
 NAME = "fourier"
 PROPERTY = "C17"
-TIERS = {"quick": (9000, 90.0), "thorough": (300000, 1800.0)}
+TIERS = {"quick": (8000, 90.0), "thorough": (300000, 1800.0)}
 CHANGE_KINDS = base.CHANGE_KINDS
 OBSERVE_KINDS = {"gen"}
 RULE = ("one run = seeded history (3-14 ops) over one long-lived Fourier SRF (dim 1-3, per-axis "
@@ -98,6 +98,12 @@ class Machine(base.Machine):
         return op
 
     def _gen_fault(self, rng):
+        if self.dim > 1 and rng.random() < 0.015:
+            # a long history of steps that are each below the tolerance of the model comparison
+            return {"fault": "creep", "steps": rng.choice([2000, 3000]),
+                    "rel": rng.choice([8e-6, 6e-6]),
+                    "pts": [[round(rng.uniform(-5, 5), 2) for _ in range(self.dim)]
+                            for _ in range(2)]}
         op = super()._gen_fault(rng)
         if op["fault"] in ("rejected_mode_no", "foreign_hankel"):
             return op
@@ -108,6 +114,42 @@ class Machine(base.Machine):
         if op["fault"] == "rejected_set" and op["param"] == "nugget":
             op["param"], op["bad"], op["repair"] = "var", -1.0, rng.choice(cm.VAR_GRID)
         return op
+
+    def _apply_fault(self, op):
+        if op.get("fault") != "creep":
+            return super()._apply_fault(op)
+        # thousands of tiny in-place changes, a call after each: every single step may be
+        # ignored (models are compared with a relative tolerance of 1e-5), their sum may not
+        if self.dim == 1:
+            raise Inapplicable("needs a ratio")
+        srf = self.sut.srf
+        m = srf.model
+        pts = np.array(op["pts"], dtype=np.double).T
+        a0 = np.array(m.anis, dtype=np.double)
+        for i in range(int(op["steps"])):
+            m.anis = a0 * (1.0 + op["rel"]) ** (i + 1)
+            srf(pts.copy(), store=False, post_process=False)
+        self.twin = None   # the twin did not take part
+        self._sync_spec_model()
+        self.ctx.fired("creep")
+        got = np.array(srf(pts.copy(), store=False, post_process=False), dtype=np.double)
+        fresh = np.array(base.build_srf(self.spec)(pts.copy(), store=False, post_process=False),
+                         dtype=np.double)
+        self.ctx.observations += 1
+        # coarse on purpose: up to 1e-5 of the drift may legitimately be pending
+        if np.max(np.abs(got - fresh)) > 0.02 * max(1.0, float(np.max(np.abs(fresh)))):
+            raise Violation("C17.fresh_equal.creep", steps=op["steps"], rel=op["rel"],
+                            maxdiff=maxdiff(got, fresh))
+        # re-anchor with two definite steps, so that the exact comparisons that follow are sound
+        final = np.array(m.anis, dtype=np.double)
+        m.anis = final * 1.5
+        srf(pts.copy(), store=False, post_process=False)
+        m.anis = final
+        srf(pts.copy(), store=False, post_process=False)
+        self._sync_spec_model()
+        self.rng_fresh = False
+        self.model_at_last_gen = None
+        self.last = None
 
     def _apply_gen(self, op):
         if op["layout"] != "periodic":
